@@ -332,12 +332,6 @@ func (c *Connection) OutgoingProposedHeaders() chan<- tmconsensus.ProposedHeader
 
 func (c *Connection) Disconnect() {
 	c.disconnectOnce.Do(func() {
-		// Unregister the topic validators.
-		// This doesn't seem necessary, but sometimes during tests,
-		// we will get a late log message after the test has failed,
-		// perhaps due to other resources not being cleaned up properly.
-		_ = c.h.PubSub().UnregisterTopicValidator(topicConsensus)
-
 		c.consensusSub.Cancel()
 		if err := c.consensusTopic.Close(); err != nil && err != context.Canceled {
 			c.log.Info("Error closing consensus message topic during disconnect", "err", err)
@@ -346,6 +340,16 @@ func (c *Connection) Disconnect() {
 		if err := c.h.Close(); err != nil {
 			c.log.Info("Error closing connection host", "err", err)
 		}
+
+		// Unregister the topic validators.
+		// This doesn't seem necessary, but sometimes during tests,
+		// we will get a late log message after the test has failed,
+		// perhaps due to other resources not being cleaned up properly.
+		//
+		// This must not happen while the host can still forward messages:
+		// pubsub forwards whatever arrives on a subscribed topic that has no validator,
+		// and cancelling the subscription above only takes effect asynchronously.
+		_ = c.h.PubSub().UnregisterTopicValidator(topicConsensus)
 
 		close(c.disconnected)
 	})
